@@ -159,6 +159,8 @@ func (e *Engine) intrinsic(fn *ssa.Function, args []Val) (Val, bool) {
 	case "vMutexHeld":
 		k := e.ghostKey(args[0].(Ptr))
 		return Bool{C: e.locks != nil && e.locks[k] != 0}, true
+	case "vDeadlocked":
+		panic(deadlockPath{e.argStr(args[0], name)})
 	case "vRandCount":
 		return Int{W: 64, S: true, C: uint64(e.randReads)}, true
 	case "vYield":
